@@ -1,0 +1,58 @@
+// Copyright 2012 Google, Inc. All rights reserved.
+//
+// Use of this source code is governed by a BSD-style license
+// that can be found in the LICENSE file in the root of the source
+// tree.
+
+//go:build verif
+
+package tcpassembly
+
+import (
+	"flag"
+	"os"
+	"sort"
+)
+
+// tcpassembly and reassembly register the same command-line flags
+// (assembly_memuse_log, assembly_debug_log) on flag.CommandLine, so a binary
+// that imports both panics during initialisation ("flag redefined").  The
+// verification harness has to link both packages: in "verif" builds each of
+// them, once its own flags are registered, installs a fresh flag.CommandLine
+// for whatever is initialised next.
+func init() {
+	flag.CommandLine = flag.NewFlagSet(os.Args[0], flag.ExitOnError)
+}
+
+// VerifYield, when non-nil, is called at every scheduling point of the
+// StreamPool/Assembler locking protocol: immediately before a goroutine
+// acquires the pool lock or a connection lock.  point names the site, lock is
+// the object whose lock is about to be taken (a *StreamPool or a *connection,
+// to be used only as an opaque comparable identity).  It exists only in builds
+// with the "verif" tag and lets a test harness run goroutines one at a time
+// under a chosen interleaving.
+var VerifYield func(point string, lock interface{})
+
+func verifYield(point string, lock interface{}) {
+	if VerifYield != nil {
+		VerifYield(point, lock)
+	}
+}
+
+// verifOrder puts a snapshot of the pool's connections (taken with the pool
+// lock held) into map-key order, so that Flush* visits connections in an order
+// that does not depend on Go's randomised map iteration.
+func verifOrder(p *StreamPool, conns []*connection) {
+	keys := make([]string, 0, len(p.conns))
+	byKey := make(map[string]*connection, len(p.conns))
+	for k, c := range p.conns {
+		k := k
+		s := k.String()
+		keys = append(keys, s)
+		byKey[s] = c
+	}
+	sort.Strings(keys)
+	for i, s := range keys {
+		conns[i] = byKey[s]
+	}
+}
